@@ -34,9 +34,6 @@ MARKUP_CORPUS = [
     'ul>li*6', 'div*4>p*3', '(a+b)*5', 'html[lang=${lang}]>head>meta[charset=${charset}]', 'p{${lang}-${locale}}',
     'label>input[type=checkbox]', 'select>option[value=$]*3', 'input[type=radio checked.]', 'video>source+track',
     'xsl:when[test]>xsl:variable[name=a select=b]{x}', 'wp[name=a select=b]>div',
-    # (shapes the library-reach measure showed no run had executed)
-    'ul>li*2>p*2>{$^ $^^ $@- $@3^}', 'ul>li.a$@^^*2>p.b$^*3', 'div{a{b}c}', 'div{a{b', 'p[a={b{c}d}]', 'p[a={b{c]', 'a[b="c\\"d"]',
-    'p{\\${1} \\$ $$}', 'div[a=b{c}]', 'div{}}', 'p[a="x]y" b=[z]]',
 ]
 
 STYLESHEET_CORPUS = [
@@ -54,7 +51,15 @@ STYLESHEET_CORPUS = [
     'fz12', 'fz1e', 'fs-i', 'fst', 'lts.1', 'wos2', 'tsh', 'to', 'colm2', 'colmg10', 'wido2', 'orp3',
     'trf:scale(2)', 'trf-r(45)', 'trf:tx(10)', 'fna-sc(3)', 'fna:rotate(20)', 'gtx-r(3)', 'bgi-url(a.png)', 'animtf-cb(.2)',
     'cola', 'cola-#0', 'stra', 'kdis-b', 'kdis', 'gtx', 'c:r(0,0,0)', 'bxsh-n', 'bd-n', 'fl-r!', 'kmar!',
-    # (shapes the library-reach measure showed no run had executed)
+]
+
+# shapes the library-reach measure showed no seeded run had executed: used by a scripted scenario of the C08 sweep
+# (kept out of the corpora above so that the seeded histories stay the ones the seeded changes were evaluated on)
+REACH_MARKUP = [
+    'ul>li*2>p*2>{$^ $^^ $@- $@3^}', 'ul>li.a$@^^*2>p.b$^*3', 'div{a{b}c}', 'div{a{b', 'p[a={b{c}d}]', 'p[a={b{c]', 'a[b="c\\"d"]',
+    'p{\\${1} \\$ $$}', 'div[a=b{c}]', 'div{}}', 'p[a="x]y" b=[z]]',
+]
+REACH_STYLESHEET = [
     'c#f.', 'c#fc0.', 'bgc#t', 'c#t.5', 'c#ffff', 'c#1234.5', 'p{a}', 'p{a{b}c}', 'p{a{b', "cnt'a{b}c'", 'cnt"a', 'fna', 'fna+gtx+stra',
     'lg(a(b(c)), d)', 'lg(a(b', 'm(1)', 'p(a,b)c', 'c#f00!', 'm-.5--1.5', 'm.5e-.5', 'bd1-s-#f.5',
 ]
